@@ -557,7 +557,26 @@ class Interp:
             a = c["ptr"]
             d = ty.get(t)
             if "static" in a:
-                raise Undecided("pointer to static %s" % a["static"])
+                # a `static` item: one cell per interpreter; its contents are unknown (symbolic) unless
+                # the code under analysis writes them first (lazy_static's Lazy is modelled separately)
+                cells = self.__dict__.setdefault("_static_cells", {})
+                name = a["static"]
+                if c.get("ptr_offset", 0):
+                    raise Undecided("constant pointer into the middle of static %s" % name)
+                if name not in cells:
+                    pt = d["pointee"] if d["kind"] in ("ref", "rawptr") else None
+                    if pt is None or ty.kind(pt) in ("slice", "str"):
+                        raise Undecided("pointer to static %s" % name)
+                    nbits = ty.size_bits(pt)
+                    if nbits == 0:
+                        val = Agg(())
+                    elif "bytes" in a:      # immutable, Freeze: exactly the initialiser's bytes
+                        data = bytes.fromhex(a["bytes"])
+                        val = self.from_bits(bv.const(int.from_bytes(data[:nbits // 8], "little"), nbits), pt)
+                    else:
+                        val = self.from_bits(bv.inp("static." + name, nbits), pt)
+                    cells[name] = self.new_cell(val, "static " + name)
+                return Ptr(cells[name], ())
             if "fn" in a:
                 return FnVal({"inst": a["fn"]})
             if "bytes" not in a or a.get("ptrs"):
@@ -753,7 +772,13 @@ class Interp:
                     if v.idx is not None:
                         # pointer to an element (itself an array) of an outer array
                         if v.ety is not None and v.ety != pf and ty.get(v.ety) != ty.get(pf):
-                            raise Undecided("unsize of a cast element pointer")
+                            if v.ety == ty.elem(pf):
+                                # pointer into a run of T reinterpreted as *[T; N]: the N elements from idx on
+                                return Ptr(v.cell, v.path, idx=v.idx, meta=ty.array_len(pf), ety=v.ety)
+                            if self.ty.size_bits(ty.elem(pf)) % max(1, self.ty.size_bits(v.ety)) == 0 and self.ty.size_bits(v.ety):
+                                # ... or as *[U; N] with U a multiple of T: a slice view of N elements of U
+                                return Ptr(v.cell, v.path, idx=v.idx, meta=ty.array_len(pf), ety=v.ety, vty=ty.elem(pf))
+                            raise Undecided("unsize of a cast element pointer (%s viewed as %s)" % (v.ety, pf))
                         path = path + (("i", v.idx, None),)
                     return Ptr(v.cell, path, idx=0, meta=ty.array_len(pf), ety=ty.elem(pf))
                 raise Undecided("unsize coercion from %s" % pf)
@@ -825,7 +850,13 @@ class Interp:
                         raise Undecided("symbolic slice length")
                     if p.idx is None:
                         raise Undecided("raw slice from non-element pointer")
-                    return Ptr(p.cell, p.path, idx=p.idx, meta=m, ety=p.ety)
+                    vty = None
+                    dd = ty.get(dest_ty)
+                    if dd["kind"] in ("ref", "rawptr") and ty.kind(dd["pointee"]) == "slice":
+                        et = ty.get(dd["pointee"])["elem"]
+                        if p.ety is not None and et != p.ety and ty.get(et) != ty.get(p.ety):
+                            vty = et        # *const [U] over a run of T: a slice view
+                    return Ptr(p.cell, p.path, idx=p.idx, meta=m, ety=p.ety, vty=vty)
             raise Undecided("aggregate %s" % agg)
         if k == "repeat":
             v = self.eval_operand(fr, rv["op"])
